@@ -12,7 +12,9 @@ use crate::e5::{is_boot, meta_str, Serve, World};
 #[derive(Clone, Debug, serde::Serialize, serde::Deserialize)]
 pub struct Program {
     /// per explicit append: 0 plain, 1 --meta colliding with the stamps, 2 --ttl head:1, 3 --context <other>,
-    /// 4 --ttl bogus (the append itself fails: the whole invocation fails)
+    /// 4 --ttl bogus (the append itself fails: the whole invocation fails),
+    /// 5 / 7 a frame the store refuses when it is emitted (`xs.context` outside the zero context, a
+    /// topic with a NUL byte): the call is then either complete without it or fails as a whole
     pub appends: Vec<u8>,
     /// 0 nothing, 1 string, 2 int, 3 float, 4 bool, 5 list, 6 record, 7 empty string, 8 empty list, 9 empty record, 10 zero
     pub ret: u8,
@@ -30,6 +32,13 @@ pub fn programs(thorough: bool) -> Vec<Program> {
     }
     app_sets.push(vec![0, 4]);
     app_sets.push(vec![4, 0]);
+    for r in [5u8, 7u8] {
+        app_sets.push(vec![r]);
+        app_sets.push(vec![0, r]);
+        app_sets.push(vec![r, 0]);
+        app_sets.push(vec![0, r, 0]);
+        app_sets.push(vec![1, r, 2]);
+    }
     for a in 0..4u8 {
         for b in 0..4u8 {
             if thorough || a == b || a == 0 || b == 3 {
@@ -91,7 +100,11 @@ pub fn script(p: &Program, other_ctx: &str) -> String {
             4 => " --ttl bogus".to_string(),
             _ => format!(" --context {}", other_ctx),
         };
-        body.push_str(&format!("    \"c{}\" | .append out{}{}\n", i, i, flags));
+        match a {
+            5 => body.push_str(&format!("    \"c{}\" | .append xs.context\n", i)),
+            7 => body.push_str(&format!("    \"c{}\" | .append $\"nul(char nul)x\"\n", i)),
+            _ => body.push_str(&format!("    \"c{}\" | .append out{}{}\n", i, i, flags)),
+        }
         if i == 0 && p.fail == 2 {
             body.push_str(fail);
         }
@@ -161,7 +174,9 @@ pub fn run_program(p: &Program) -> (Vec<F>, String) {
         .filter(|f| !is_boot(f) && f.id != flush.id)
         .collect();
     let label = format!("{:?}", p);
-    if p.fail != 0 || p.appends.contains(&4) {
+    let refused = |a: &u8| *a == 5 || *a == 7;
+    let may_fail = p.appends.iter().any(refused);
+    if p.fail != 0 || p.appends.contains(&4) || (may_fail && term.topic == "h.unregistered") {
         outcome.push_str("fail;");
         // nothing of the invocation appears; exactly one unregistered with the error
         if term.topic != "h.unregistered" {
@@ -196,6 +211,9 @@ pub fn run_program(p: &Program) -> (Vec<F>, String) {
         // expected sequence: explicit appends in call order, then the return value
         let mut want: Vec<(String, Option<TTL>, Option<String>, bool)> = vec![];
         for (i, a) in p.appends.iter().enumerate() {
+            if refused(a) {
+                continue;
+            }
             let ttl = if *a == 2 { Some(TTL::Head(1)) } else { None };
             want.push((format!("out{}", i), ttl, Some(format!("c{}", i)), *a == 1));
         }
@@ -277,7 +295,7 @@ pub fn run(tier: &str, report: &mut Report) {
     report.cov("distinct_outcomes", json!(outcomes.len()));
     report.cov("exhaustive", json!(true));
     report.cov("samples", json!(progs.iter().step_by((progs.len() / 4).max(1)).take(4).map(|p| script(p, "<ctxB>")).collect::<Vec<_>>()));
-    report.cov("explanation", json!("every handler script of the grammar {0..2 explicit .append with flags in {none, --meta colliding with the stamps, --ttl, --context other}} x {return nothing/string/int/float/bool/list/record/empty string/empty list/empty record/zero} x {return_options none/suffix/ttl head/ttl time/ephemeral+suffix} x {failure none/before/between/after the appends} (quick: every value of every dimension and all pairs with the append shape) is registered on a fresh store behind the real handlers::serve, triggered once and flushed by a sentinel frame; observed through a follower so ephemeral outputs count"));
+    report.cov("explanation", json!("every handler script of the grammar {0..2 explicit .append with flags in {none, --meta colliding with the stamps, --ttl, --context other}, plus shapes with an append the store refuses at emission time (xs.context outside the zero context, NUL in the topic) in first / middle / last position} x {return nothing/string/int/float/bool/list/record/empty string/empty list/empty record/zero} x {return_options none/suffix/ttl head/ttl time/ephemeral+suffix} x {failure none/before/between/after the appends} (quick: every value of every dimension and all pairs with the append shape) is registered on a fresh store behind the real handlers::serve, triggered once and flushed by a sentinel frame; observed through a follower so ephemeral outputs count"));
 }
 
 pub fn replay(v: &Value) -> i32 {
